@@ -299,6 +299,81 @@ pub fn gen_driver(prop: &str, rng: &mut Rng, sh: &mut Shards, out: &str, thoroug
                 }
             }
         }
+        "C12" => {
+            for i in 0..(220 * scale) {
+                let mut data: Vec<DataItem> = Vec::new();
+                let mut items: Vec<Item> = vec![Item::Label("start".into())];
+                let mut lab = 0usize;
+                let ngroups = 1 + rng.below(3) as usize;
+                let over = i % 11 == 10; // one program in eleven exceeds 64 KiB in a segment
+                let mut segs_used: Vec<u16> = Vec::new();
+                for gi in 0..ngroups {
+                    let seg: u16 = if gi == 0 && rng.chance(1, 2) { 0 } else {
+                        let s = *rng.pick(&[0u16, 1, 0x10, 0x0FFF, 0x1000, 0x8000, 0xF000, 0xFFF0, 0xFFFF, 0xFFFE]);
+                        data.push(DataItem::Set(s));
+                        s
+                    };
+                    segs_used.push(seg);
+                    let mut group: Vec<(String, u8)> = Vec::new();
+                    let ndefs = 1 + rng.below(6) as usize;
+                    let mut big_done = false;
+                    for di in 0..ndefs {
+                        let dir: &'static str = if rng.chance(1, 2) { "db" } else { "dw" };
+                        let w: u8 = if dir == "db" { 8 } else { 16 };
+                        let imm = |rng: &mut Rng| -> i32 { if w == 8 { *rng.pick(&[0i32, 1, 127, 128, 255, -1, -128, 65]) } else { *rng.pick(&[0i32, 1, 255, 256, 32767, 32768, 65535, -1, -32768, 0x1234]) } };
+                        let form = match rng.below(8) {
+                            0 | 1 => DataForm::Num(imm(rng)),
+                            2 => DataForm::Zero(*rng.pick(&[0u32, 1, 2, 15, 16, 255, 256])),
+                            3 => DataForm::Fill(imm(rng), *rng.pick(&[0u32, 1, 2, 3, 17, 100])),
+                            4 | 5 => DataForm::Str(rng.pick(&["", "a", "hello world", "0123456789ABCDEF", "x  y", "~!@#$%^&*()_+{}|<>?"]).to_string()),
+                            6 if !big_done && (over || rng.chance(1, 3)) => {
+                                big_done = true;
+                                // large zero arrays: up to (and, for `over`, beyond) the 64 KiB of a segment
+                                let n = if over && gi == ngroups - 1 { if w == 8 { 65535 } else { 32767 + rng.below(3) as u32 } } else if w == 8 { *rng.pick(&[4096u32, 32768, 60000, 65000]) } else { *rng.pick(&[2048u32, 16384, 30000]) };
+                                DataForm::Zero(n)
+                            }
+                            _ => DataForm::Num(imm(rng)),
+                        };
+                        let label = if rng.chance(4, 5) || di == ndefs - 1 {
+                            lab += 1;
+                            let n = format!("dat{}_{}", if lab % 2 == 0 { "A" } else { "q" }, lab);
+                            group.push((n.clone(), w));
+                            Some(n)
+                        } else {
+                            None
+                        };
+                        data.push(DataItem::Def { label, dir, form });
+                    }
+                    if over && gi == ngroups - 1 {
+                        // push the running offset past 64 KiB and define a labelled item there
+                        data.push(DataItem::Def { label: None, dir: "db", form: DataForm::Zero(200) });
+                        lab += 1;
+                        let n = format!("datZ_{}", lab);
+                        group.push((n.clone(), 8));
+                        data.push(DataItem::Def { label: Some(n), dir: "db", form: DataForm::Num(90) });
+                    }
+                    // read every label of the group through DS = its segment, as operand and through OFFSET
+                    items.push(Item::Ins(Ins::Mov { w: 16, dst: Opnd::Reg16("ax"), src: Opnd::Imm(seg as i32) }));
+                    items.push(Item::Ins(Ins::Mov { w: 16, dst: Opnd::Sreg("ds"), src: Opnd::Reg16("ax") }));
+                    for (n, w) in &group {
+                        let r = if *w == 8 { Opnd::Reg8(*rng.pick(&["bl", "bh", "dl", "dh"])) } else { Opnd::Reg16(*rng.pick(&["bx", "dx", "si", "di"])) };
+                        items.push(Item::Ins(Ins::Mov { w: *w, dst: r, src: Opnd::Label { name: n.clone(), off: 0 } }));
+                        items.push(Item::Ins(Ins::Mov { w: 16, dst: Opnd::Reg16("cx"), src: Opnd::Offset { name: n.clone(), off: 0 } }));
+                        if rng.chance(1, 3) {
+                            items.push(Item::Ins(Ins::Lea { dst: Opnd::Reg16("bp"), src: Opnd::Label { name: n.clone(), off: 0 } }));
+                        }
+                        if rng.chance(1, 3) {
+                            items.push(Item::Ins(Ins::BinArith { op: "add", w: *w, dst: Opnd::Label { name: n.clone(), off: 0 }, src: Opnd::Imm(1) }));
+                        }
+                    }
+                    items.push(Item::Ins(Ins::Print { what: PrintWhat::DsSpan(rng.below(48) as u32) }));
+                }
+                let p = Program { data, items, interp: false, stdin: Vec::new(), note: if over { "over-64k".into() } else { "data".into() } };
+                let mut lay = Layout::random(rng);
+                lay.label_same_line = false;
+                progs.push((p, lay));
+            }
+        }
         _ => panic!("harness: no driver workload for {}", prop),
     }
     // degenerate shapes: nothing after `start:`, only a halt, a label as the very last thing,
